@@ -5,7 +5,7 @@ Components (each on its own MIR):
               for the wider ranges the entry points can produce (now in [-3pi,3pi], prev in [-4pi,4pi]): out = now + 2pi*m, |m| <= 3
               (this is exactly the summary the pipeline harness uses for normalize_near).
   comparator  sort_by_closeness (mode selection + both comparator closures, through the sort model) on two arbitrary vectors: the
-              result is a permutation of the input in non-decreasing order of the DOCUMENTED cost, for no constraints, weight 0, 1 and a symbolic weight in (0,1).
+              result is a permutation of the input in non-decreasing order of the DOCUMENTED cost, for no constraints, weight 0, 1/2, 1 (thorough: 1/4, 3/4 and a symbolic weight in (0,1)); absolute values are abstracted consistently (same |x| -> same constant), leaving linear arithmetic.
   pipeline    inverse_continuing / inverse_continuing_5dof: every element is normalised against the effective previous (given joints; centres or
               zeros for the sentinel), the whole list is sorted against it, all kernel answers are kept (superset of plain inverse), see ikentry.check_pipeline.
 Not claimed: the dense-trajectory (histories) clause beyond its one-step form.
@@ -45,7 +45,7 @@ def comparator(ck, mode):
     for v in a + b + p + cen: st.assume(z3.And(v >= -2 * TWO_PI, v <= 2 * TWO_PI))
     if mode == 'none': cons = None; w = RV(0)
     else:
-        w = {'w0': RV(0), 'w1': RV(1), 'wsym': z3.Real('w')}[mode]
+        w = {'w0': RV(0), 'w1': RV(1), 'w1/4': z3.Q(1, 4), 'w1/2': z3.Q(1, 2), 'w3/4': z3.Q(3, 4), 'wsym': z3.Real('w')}[mode]
         if mode == 'wsym': st.assume(z3.And(w > 0, w < 1))
         cons = Agg([Agg([fconst(0)] * 6), Agg([fconst(0)] * 6), Agg([F(x) for x in cen]), Agg([fconst(1)] * 6), F(w)], 'constraints::Constraints')
     params, pv, off, sign = make_params(P={n: RV(1) for n in PNAMES}, off=[RV(0)] * 6)
@@ -67,7 +67,29 @@ def comparator(ck, mode):
         o0 = [x.v for x in out.items[0].items]; o1 = [x.v for x in out.items[1].items]
         perm = z3.Or(z3.And(*[o0[j] == a[j] for j in range(6)], *[o1[j] == b[j] for j in range(6)]), z3.And(*[o0[j] == b[j] for j in range(6)], *[o1[j] == a[j] for j in range(6)]))
         ck.decide(label + 'result is a permutation of the input', eng, ctx, z3.Not(perm), case)
-        ck.decide(label + 'result in non-decreasing order of the documented cost', eng, ctx, cost(o0) > cost(o1), case, vary=a + b)
+        # first with every |x| (a real-valued if-then-else) replaced by a fresh constant, the same term by the same constant: an over-approximation that leaves pure
+        # linear arithmetic; the comparator and the documented cost are built from the same absolute differences, so nothing more is needed. Full query only if that fails.
+        cache = {}; abs_consts = {}
+        def absf(e):
+            k = e.get_id()
+            if k in cache: return cache[k][1]
+            if z3.is_app(e) and e.decl().kind() == z3.Z3_OP_ITE and z3.is_real(e) and z3.is_app(e.arg(0)) and e.arg(0).decl().kind() == z3.Z3_OP_GE and e.arg(0).arg(0).eq(e.arg(1)) \
+                    and z3.is_rational_value(e.arg(0).arg(1)) and e.arg(0).arg(1).as_fraction() == 0 and z3.is_true(z3.simplify(e.arg(1) + e.arg(2) == 0)):
+                # If(x >= 0, x, -x) = |x| : one constant per argument up to sign and up to the solver's normal form (the executor simplifies its terms)
+                key = frozenset((z3.simplify(e.arg(1)).sexpr(), z3.simplify(-e.arg(1)).sexpr()))
+                if key not in abs_consts: abs_consts[key] = z3.FreshConst(z3.RealSort(), 'abs')
+                r = abs_consts[key]
+            elif z3.is_app(e) and e.num_args(): r = e.decl()(*[absf(c) for c in e.children()])
+            else: r = e
+            cache[k] = (e, r); return r
+        goal = cost(o0) > cost(o1)
+        # the result is a permutation (proved above): split on which one, so that the costs are those of the INPUT vectors (the terms the comparator computed)
+        keep = z3.And(*[o0[j] == a[j] for j in range(6)], *[o1[j] == b[j] for j in range(6)]); swap = z3.And(*[o0[j] == b[j] for j in range(6)], *[o1[j] == a[j] for j in range(6)])
+        # congruence the abstraction forgets: equal arguments have equal absolute values
+        lem = [absf(z3.Implies(a[j] == b[j], ab(a[j] - q[j]) == ab(b[j] - q[j]))) for j in range(6) for q in ((p, cen) if cons is not None else (p,))]
+        r1, _m = ck.query(label + 'order kept => cost(first) <= cost(second) [absolute values abstracted]', None, *[absf(zb(c)) for c in ctx if c is not True], *lem, absf(keep), absf(cost(a) > cost(b)))
+        r2, _m = ck.query(label + 'order swapped => cost(second) <= cost(first) [absolute values abstracted]', None, *[absf(zb(c)) for c in ctx if c is not True], *lem, absf(swap), absf(cost(b) > cost(a)))
+        if r1 != 'unsat' or r2 != 'unsat': ck.decide(label + 'result in non-decreasing order of the documented cost', eng, ctx, goal, case, vary=a + b)
     for ob in eng.obligations: ck.decide(label + f"{ob['kind']} unreachable", eng, [ob['cond']], z3.BoolVal(True), case)
 
 def run(ck):
@@ -75,7 +97,7 @@ def run(ck):
     ck.assumptions += ['real arithmetic', 'slice::sort_by sorts according to the comparator it is given (std trusted); the comparator closures are executed from MIR',
                        'assume/guarantee: the pipeline harness uses the leaf and filter contracts proved here and in C07']
     leaf(ck)
-    for mode in ('none', 'w0', 'w1') + (('wsym',) if ck.tier == 'thorough' else ()): comparator(ck, mode)
+    for mode in ('none', 'w0', 'w1') + (('w1/2',) if ck.tier != 'thorough' else ('w1/4', 'w1/2', 'w3/4', 'wsym')): comparator(ck, mode)
     ikentry.run_props(ck, ('C04',))
 
 if __name__ == '__main__':
